@@ -133,26 +133,26 @@ for i in range(1, 21):
 # Additions made in the build round (rules added or sharpened while triaging
 # reports and seeded changes; see DESIGN.md §10.2–§10.5). Appended to the claim.
 EXTRA = {
- "C01": ("Also decides: every mutex lock (and every token put into a field-held semaphore channel) on the compile path is released on every path to a return, and is not held across a call that can reach another acquisition of it (termination of the import walk).",
+ "C01": ("Also decides: every mutex lock (and every token put into a field-held semaphore channel) on the compile path is released on every path to a return, and is not held across a call that can reach another acquisition of it (termination of the import walk). The visited guard of the import walk is recognised when the test-and-insert lives in a helper of the file table (a test-and-set with a constant flag); a deferred recover counts as a barrier only if it assigns the guarded function's named error result (SILENT-GUARD otherwise).",
          "The two linter Fatal sites are now reasoned exceptions (reachable only if one file is walked twice, which C05 excludes)."),
- "C03": ("The bypass set is read through a bool predicate helper applied to the token type when the token pump uses one.", ""),
+ "C03": ("The bypass set is read through a bool predicate helper applied to the token type when the token pump uses one. LAYOUT-BLIND: tokens in the bypass set never reach the indentation bookkeeping.", ""),
  "C04": ("Also decides: a possibly-nil value is stored into a member of a re-openable declaration (Application, Endpoint, Type_Relation, Type_Tuple, …) only when the value is non-nil or the location is nil/empty (KEEP-ON-REOPEN); a callback that finds no entry for a keyed declaration creates it or carries on instead of returning (NO-DROP-ON-ABSENT). Two re-open defects reported by INIT-IF-ABSENT (event attributes, collector statements) were repaired in /repo.", ""),
- "C05": ("Also decides: blocking resources of the collector are released on all paths and not held across a nested collector call (RESOURCE-PAIR, HELD-ACROSS-NESTING); every parser constructed where the user's parse.Settings are in reach (parameter or receiver field) is given them before use (SETTINGS-APPLIED: the depth limit is not ignored on any load path); the collector appends to no slice of the shared file table (ARRIVAL-ORDER: file order comes from the flatten walk, never from arrival); a non-recursive flatten that keeps a first-in-first-out work list is reported as breadth-first.", ""),
- "C06": ("Also decides: no decode option used in pkg/pbutil switches DiscardUnknown on (STRICT-DECODE: a well-formed JSON/text document of another schema is refused); semaphore tokens and locks on the pipeline are released on all paths and not held across nested acquisition. NO-HANG leaves field-held semaphores to those rules and reports only synchronisation constructs they cannot decide.", ""),
- "C07": ("Also decides: the import collector, which runs concurrently once per import, appends to no slice of the shared file table (ARRIVAL-ORDER). R-ORDER attributes the effects of closures and bound methods created in a loop body to that iteration and accepts a sort by comparison function only when it orders the elements themselves.", ""),
+ "C05": ("Also decides: blocking resources of the collector are released on all paths and not held across a nested collector call (RESOURCE-PAIR, HELD-ACROSS-NESTING); every parser constructed where the user's parse.Settings are in reach (parameter or receiver field) is given them before use (SETTINGS-APPLIED: the depth limit is not ignored on any load path); the collector appends to no slice of the shared file table (ARRIVAL-ORDER: file order comes from the flatten walk, never from arrival); a non-recursive flatten that keeps a first-in-first-out work list is reported as breadth-first. IMPORTS-IN-TEXT-ORDER: the list of a file's imports kept for the flatten walk is the pre-parse's list in text order (no sort, no de-duplication helper in between). FLATTEN-RESULT-KEPT: the flattened list reaches the parser without being re-ordered. The claim rules accept a claim made by a helper method of the file table.", ""),
+ "C06": ("Also decides: no decode option used in pkg/pbutil switches DiscardUnknown on (STRICT-DECODE: a well-formed JSON/text document of another schema is refused); semaphore tokens and locks on the pipeline are released on all paths and not held across nested acquisition. NO-HANG leaves field-held semaphores to those rules and reports only synchronisation constructs they cannot decide. Parser guard structure (the C01 rule) is evaluated here too. DECODE path: a per-file error kept in a named result struct may be tested in another function of the package; a returned error names the file also when it comes from a package callee all of whose error returns name it.", ""),
+ "C07": ("Also decides: the import collector, which runs concurrently once per import, appends to no slice of the shared file table (ARRIVAL-ORDER). R-ORDER attributes the effects of closures and bound methods created in a loop body to that iteration and accepts a sort by comparison function only when it orders the elements themselves. SHARED-GLOBAL also covers mutating methods of sync / sync/atomic containers held in package variables (process-wide memo tables). The rules on the file table shared by the parallel import fetchers (CLAIM-BEFORE-READ, CLAIM-ATOMIC, LOCKED-ACCESS, LOCK-PAIR, UNLOCKED-USER, PUBLICATION) are evaluated under C07 as well.", ""),
  "C08": ("Also decides: the bytes returned by the file reader reach the text kept for the lexer and every repository consumer unaltered — no trim, replace or normalisation between read and use (TEXT-INTACT), since every position is counted in that text.", ""),
- "C09": ("Also decides: the bytes written by the JSON/text/binary writers are the encoder's result passed through nothing but the verified anchored clean-up (ENCODED-BYTES-INTACT); file content reaches the decoders unaltered (CONTENT-INTACT: no CR/LF normalisation of binary models); every output file is opened with Create or with O_TRUNC/O_APPEND (WRITE-TRUNCATES).", ""),
+ "C09": ("Also decides: the bytes written by the JSON/text/binary writers are the encoder's result passed through nothing but the verified anchored clean-up (ENCODED-BYTES-INTACT); file content reaches the decoders unaltered (CONTENT-INTACT: no CR/LF normalisation of binary models); every output file is opened with Create or with O_TRUNC/O_APPEND (WRITE-TRUNCATES). DECODE-LIMITS: no size or depth limit lower than the encoder's is set on the decoders.", ""),
  "C10": ("Also decides: whatever slice is installed as the element list of a set value is built through the de-duplicating appender on every return of the function that builds it (keyed by type, not by name); a value computed from evaluated operands is never kept in evaluator state under a key that does not depend on them (EVAL-STATE: no stale memoisation).", ""),
  "C11": ("Generic generator rules also evaluated: LOST-UPDATE (a field written on a copy of a map/slice element that is never read or stored back) and MEMO-KEY (a look-up-or-compute table whose remembered value depends on a parameter its key does not depend on). Nine nondeterministic walks of the legacy Swagger importer were reproduced and repaired in /repo.", ""),
  "C12": ("LOST-UPDATE and MEMO-KEY are evaluated too. Four unordered walks with colliding entries were reproduced and repaired in /repo.", ""),
  "C13": ("The visited-guard rule requires the release to undo what the membership test reads (presence test → delete/Remove or the counter idiom; value test → zero store). The descent rule requires children that sit in an intermediate container to be handed on inside the loop over it. LOST-UPDATE and MEMO-KEY are evaluated too.", ""),
  "C14": ("The descent rule requires the statements of every alt choice to be handed on inside the loop over the choices (or accumulated), not only the last one. LOST-UPDATE and MEMO-KEY are evaluated too.", ""),
  "C15": ("Also decides LOST-UPDATE: a relationship counter (or any field) written on a copy of a map element must be stored back or read.", ""),
- "C16": ("Also decides DEPTH-IS-MAX: in the depth computation, a depth derived from a referenced table replaces the running depth only after being compared with it.", "Dependency order is still not decided in general; DEPTH-IS-MAX is one necessary condition of it."),
- "C17": ("Also decides MEMO-KEY (no memo table whose key omits a parameter the remembered value depends on) and LOST-UPDATE.", ""),
- "C18": ("Also decides LOCAL-IMPORT-MARK: the test 'will the reader take this local import for a remote resource' is applied to the joined, cleaned path the reader receives, not to the path as written.", ""),
- "C19": ("Effects of closures and bound methods created in a loop body (call-backs handed to walkers) are attributed to the iteration; a sort by comparison function removes map order only if it orders the elements themselves. Twenty flagged loops were reproduced as nondeterministic on specific inputs and repaired in /repo; the rest are reasoned exceptions or reproduced known findings; no unconfirmed row is left.", ""),
- "C20": ("R-DEREF also examines constant-bound slicing of strings taken from the model and pointer/interface results dereferenced before the error returned with them is tested. All formerly unconfirmed sites were triaged: 13 reproduced (10 repaired in /repo, 3 known findings), 26 argued safe with the invariant cited.", ""),
+ "C16": ("Also decides DEPTH-IS-MAX: in the depth computation, a depth derived from a referenced table replaces the running depth only after being compared with it. RECORD-ON-ALL-PATHS: every column writer records the column's type for later foreign keys on every path. FRESH-BUFFER: between two calls that return the content of the script buffer held in the view, the buffer is reset or the view newly constructed, on every path including the loop back edge.", "Dependency order is still not decided in general; DEPTH-IS-MAX is one necessary condition of it."),
+ "C17": ("Also decides MEMO-KEY (no memo table whose key omits a parameter the remembered value depends on) and LOST-UPDATE. DEAD-ERROR on the transform command: the error of building the relational model is not bound to a variable that is overwritten before any test. REFUSE-WITH-ERROR now requires the deferred recover of Normalize to assign the function's named error result. The descent and recursion rules follow selector helpers (a function returning the nested statements of every block kind).", ""),
+ "C18": ("Also decides LOCAL-IMPORT-MARK: the test 'will the reader take this local import for a remote resource' is applied to the joined, cleaned path the reader receives, not to the path as written. RAW-FS-USE: in the loader, the unconfined filesystem is handed to anything but the confining constructor only on the branch where no root was given. DEPENDENCY-PATH: a path built by repository code and handed to a file-touching API of a dependency is computed from the confined filesystem's root.", ""),
+ "C19": ("Effects of closures and bound methods created in a loop body (call-backs handed to walkers) are attributed to the iteration; a sort by comparison function removes map order only if it orders the elements themselves. Twenty flagged loops were reproduced as nondeterministic on specific inputs and repaired in /repo; the rest are reasoned exceptions or reproduced known findings; no unconfirmed row is left. R-ORDER examines the arms of a loop statement that leave the loop (return inside the body), reports two in-loop returns with different constant results, and skips loops guarded by len(m)==1. FRESH-BUFFER is evaluated for every generator that returns the content of a buffer kept in a view object.", ""),
+ "C20": ("R-DEREF also examines constant-bound slicing of strings taken from the model and pointer/interface results dereferenced before the error returned with them is tested. All formerly unconfirmed sites were triaged: 13 reproduced (10 repaired in /repo, 3 known findings), 26 argued safe with the invariant cited. DEAD-ERROR over all command paths; SILENT-GUARD: a deferred recover that stops a panic without turning it into the function's error result is not a barrier. R-DEREF also reports a found-flag of a repository look-up that is ignored while the value is used.", ""),
 }
 for pid, (t, n) in EXTRA.items():
     if t:
